@@ -44,7 +44,7 @@ CLAIMED = {
  "C09": dict(level=MC, ref="DESIGN.md section 4 C09, Appendix C",
    text="Conc.tla refines the atomic AnalyzeFn of Index.tla to individual DashMap operations; TLC checks Serializable / NoDanglingC / MirrorC over ALL interleavings of two analyses of different files, all key->shard placements and 1800 scenarios (1.2M states); TLC-simulated behaviours (thread-id sequences) are replayed on real threads through the instrumented DashMap's cooperative scheduler and the quiescent real index is compared with both sequential orders executed on the real library and with the model's final state.",
    note="2 threads, 2 names, 2 shards; schedule points = acquisitions on the four shared maps; instrumented copy of dashmap 6.1.0 (hooks off = upstream behaviour).",
-   technique="TLA+ refinement at DashMap-operation grain (TLC exhaustive) + scheduled real-thread replay of TLC behaviours"),
+   technique="TLA+ refinement at DashMap-operation grain (TLC exhaustive) + scheduled real-thread replay of TLC behaviours + TLC trace validation of the real lock logs (ConcTrace.tla)"),
  "C10": dict(level=MC, ref="DESIGN.md section 4 C10",
    text="Conc.tla with scan worker (no cleanup) and editor (cleanup) on the SAME file: TLC checks RestoreAfterChange over all interleavings; simulated behaviours and both coarse orders are replayed on real threads under the scheduler, then every text is sent as one further change; the final state is compared with the single analysis of the buffer; the known scan-after-notification defect is matched only when the model predicts the exact observed state.",
    note="5 disk texts x 5 buffer texts; the scan's visit is the guarded verif_analyze_file_fresh hook.",
